@@ -202,17 +202,15 @@ func runFmtStage(c *Ctx, ocra bool, minDigits int, nRandom int) {
 	cfg := &hooks.Config{Digest: fakeDigest}
 	hooks.Install(cfg)
 	defer hooks.Remove()
-	var cases []fmtCase
 	rng := c.RNG.Fork(101)
+	before := hooks.Calls()
+	b := newBatcher(c, judgeFmt, 0)
 	for d := minDigits; d <= 10; d++ {
 		for i, v := range fmtValues(rng, d, nRandom) {
-			cases = append(cases, fmtCase{Value: v, TopBit: i%2 == 1, Offset: uint8(i % 16), Digits: uint8(d), Algo: uint8(i % 3), OCRA: ocra})
+			b.add(fmtCase{Value: v, TopBit: i%2 == 1, Offset: uint8(i % 16), Digits: uint8(d), Algo: uint8(i % 3), OCRA: ocra})
 		}
 	}
-	before := hooks.Calls()
-	for _, k := range cases {
-		judgeFmt(c, k)
-	}
+	b.flush()
 	if hooks.Calls() == before {
 		c.R.Inconclusive("formatting-stage enumeration: constructor table wrapper never called")
 	}
@@ -263,7 +261,7 @@ func c01Cases(c *Ctx, emit func(hotpCase)) {
 		}
 	}
 	// seeded random
-	for i := 0; i < c.N(20000, 300000); i++ {
+	for i := 0; i < c.N(400000, 6000000); i++ {
 		key := rng.Bytes(rng.Intn(80))
 		if rng.Intn(10) == 0 {
 			key = rng.Bytes(gen.Pick(rng, gen.SecretLens))
@@ -286,16 +284,16 @@ func init() {
 		Rule: "cases = boundary catalogue (secret length/content classes x counter boundaries x digit values x hash values) + seeded random, each run through GenerateHOTP and compared with an independent RFC 4226 model; " +
 			"distinct_nontrivial counts distinct (key,counter,digits,hash) tuples with supported parameters whose exact code was compared, distinct unsupported (digits,hash) classes that must be refused, and distinct (31-bit value,digits) pairs pushed through the formatting stage via a substituted HMAC output",
 		Run: func(c *Ctx) {
-			var cases []hotpCase
-			c01Cases(c, func(k hotpCase) { cases = append(cases, k) })
-			parallelJudge(c, cases, judgeHOTP)
+			b := newBatcher(c, judgeHOTP, 0)
+			c01Cases(c, b.add)
+			b.flush()
 			// hooked: key and message actually fed to the HMAC
 			if hooks.Available() {
 				checkHMACInputsHOTP(c)
 			} else {
 				c.R.Inconclusive("HMAC key/message observation: verif hooks unavailable")
 			}
-			runFmtStage(c, false, 1, c.N(20000, 1<<20))
+			runFmtStage(c, false, 1, c.N(100000, 1<<22))
 		},
 		Replay: func(c *Ctx, kind string, raw json.RawMessage) error {
 			switch kind {
@@ -323,7 +321,7 @@ func parallelJudge[T any](c *Ctx, cases []T, judge func(*Ctx, T)) {
 // the decoded secret and the message the 8-byte big-endian counter.
 func checkHMACInputsHOTP(c *Ctx) {
 	rng := c.RNG.Fork(7)
-	for i := 0; i < c.N(2000, 20000); i++ {
+	for i := 0; i < c.N(20000, 200000); i++ {
 		key := rng.Bytes(rng.Intn(70))
 		k := hotpCase{KeyHex: hexs(key), Secret: gen.Spell(rng, ref.Base32Encode(key), rng.Intn(gen.NSpellings)), Counter: gen.Counter(rng), Digits: uint8(1 + rng.Intn(10)), Algo: uint8(rng.Intn(3))}
 		checkOneHMACInput(c, k)
